@@ -524,6 +524,14 @@ def prefix_history_check(ctx):
                             rec.violation("C01:prefix-history:verdict-differs-after-prefix-change:" + (want or "valid"),
                                           history=list(hist), text=text, codes=sorted(codes), expected=want)
                             raise StopIteration
+                    # under a prefix a tag written without it belongs to no loaded schema
+                    for text in ((f"Red", f"{ns}Blue, Red", f"(Label/abc, {ns}Green)", "Item/Object/Zzq") if ns else ()):
+                        codes = {i["code"] for i in v.validate(HedString(text, S), allow_placeholders=False)
+                                 if i["severity"] == ERR}
+                        if "TAG_NAMESPACE_PREFIX_INVALID" not in codes:
+                            rec.violation("C01:prefix-history:unprefixed-tag-accepted-under-a-prefix", history=list(hist),
+                                          text=text, prefix=ns, codes=sorted(codes))
+                            raise StopIteration
                 else:
                     S.set_schema_prefix(op[7:])
                     ns = op[7:] + ":" if op[7:] else ""
@@ -533,6 +541,57 @@ def prefix_history_check(ctx):
             rec.violation("C01:prefix-history:raises:" + type(e).__name__, history=list(hist), error=repr(e)[:200])
         rec.state(("prefix-history", hist))
     rec.outcome("prefix-history")
+
+
+VALUE_TEXTS = ["two words", "a.b;c", "abc", "x!", "12", "a_b-c", "caf\u00e9", "3 s"]
+VALUE_TAGS = ["Description/{}", "Label/{}", "ID/{}", "Item-count/{}", "Duration/{}"]
+
+
+def validator_history_check(ctx):
+    """One HedValidator object judges a sequence of annotations: each verdict equals a fresh validator's (the same value text
+    under tags of different value classes, in both orders and within one annotation)."""
+    from hed.models.hed_string import HedString
+    from hed.validator import HedValidator
+    rec = ctx.rec
+    st = Setup("HED8.3.0.xml")
+    texts = [t.format(v) for v in VALUE_TEXTS for t in VALUE_TAGS]
+    texts += [f"{a.format(v)}, {b.format(v)}" for v in VALUE_TEXTS[:4] for a in VALUE_TAGS[:3] for b in VALUE_TAGS[:3] if a != b]
+
+    def verdict(validator, text):
+        return sorted((i["code"], i["severity"]) for i in validator.validate(HedString(text, st.schema), allow_placeholders=False))
+    fresh = {}
+    for t in texts:
+        try:
+            fresh[t] = verdict(HedValidator(st.schema), t)
+        except Exception as e:
+            rec.violation("C01:validator-history:raises:" + type(e).__name__, text=t, error=repr(e)[:200])
+            return
+    singles = [t for t in texts if ", " not in t]
+    for v in VALUE_TEXTS:
+        group = [t for t in singles if t.endswith("/" + v)]
+        for a, b in itertools.permutations(group, 2):
+            rec.n("evaluations")
+            rec.n("transitions", 2)
+            rec.n("distinct_nontrivial")
+            rec.state(("validator-history", a.split("/")[0], b.split("/")[0]))
+            val = HedValidator(st.schema)
+            for step, t in enumerate((a, b, a)):
+                got = verdict(val, t)
+                if got != fresh[t]:
+                    rec.violation("C01:validator-history:verdict-depends-on-earlier-annotations", history=[a, b, a][:step + 1],
+                                  text=t, fresh=fresh[t], got=got)
+                    break
+    rec.outcome("validator-history")
+    # both tags in one annotation: the issues are those of the two tags on their own
+    for t in texts:
+        if ", " not in t:
+            continue
+        a, b = t.split(", ")
+        rec.n("evaluations")
+        want = sorted(c for c, sev in fresh[a] + fresh[b] if sev == ERR)
+        got = sorted(c for c, sev in fresh[t] if sev == ERR)
+        if got != want:
+            rec.violation("C01:validator-history:two-tags-judged-differently-together", text=t, alone=want, together=got)
 
 
 def hash_seed_check(ctx):
@@ -597,6 +656,7 @@ def run(ctx):
     ctx.parallel(worker, setups, bounds, ctx.seed)
     hash_seed_check(ctx)
     prefix_history_check(ctx)
+    validator_history_check(ctx)
     ctx.rec.counts["states"] = len(ctx.rec.states)
 
 
